@@ -14,9 +14,9 @@ def register(CHECKS, H):
 def C05():
     units = [{"name": "c05_cfg%d" % k, "src": "checks/c05_matrix_barcode.cpp", "flags": ["-DVF_CFG=%d" % k], "deps": DEPS}
              for k in range(N_UNITS_C05)]
-    quick = [{"unit": u["name"], "args": ["--plan", QUICK_PLAN, "--primes", "2,3", "--modes", "00,11,20"], "cores": 1,
+    quick = [{"unit": u["name"], "args": ["--plan", QUICK_PLAN, "--modes", "00,11,20,41"], "cores": 1,
               "timeout": 900} for u in units]
-    thorough = [{"unit": u["name"], "args": ["--plan", THOROUGH_PLAN, "--primes", "2,3,5", "--modes", "00,11,20,31,01,21"],
+    thorough = [{"unit": u["name"], "args": ["--plan", THOROUGH_PLAN, "--modes", "00,11,20,31,41,21"],
                  "cores": 1, "shards": 1, "timeout": 2400} for u in units]
     return {
         "units": units,
@@ -46,8 +46,8 @@ def C05():
                  "resp. B*V = R (Z_p); chain: one column per cell led by that cell, homogeneous dimension, pairing equal to the "
                  "oracle's, unpaired and birth columns are cycles, the boundary of a death column equals its partner; "
                  "distinct_nontrivial = cases with a remove_last or at least 3 insertions"),
-        "bounds": {"quick": "plan " + QUICK_PLAN + " (universe:max insertions:max remove_last), p in {2,3}, identifier/constructor modes 00,11,20",
-                   "thorough": "plan " + THOROUGH_PLAN + ", p in {2,3,5}, modes 00,11,20,31,01,21"},
+        "bounds": {"quick": "plan " + QUICK_PLAN + " (universe:max insertions:max remove_last:primes[:e = remove_last also on the empty matrix]), identifier/constructor modes 00,11,20,41",
+                   "thorough": "plan " + THOROUGH_PLAN + ", modes 00,11,20,31,41,21"},
         "assumptions": [
             "documented preconditions only: boundaries are inserted in filtration order with faces present, sorted by identifier, "
             "non-zero coefficients in 1..p-1; explicit identifiers strictly increase along the current filtration; the R-only "
@@ -63,8 +63,8 @@ def C05():
     }
 
 
-QUICK_PLAN = "tet:7:2,square:7:1,cw:7:2"
-THOROUGH_PLAN = "tet:8:2,tri:7:4,square:9:2,strip:7:2,cw:7:3"
+QUICK_PLAN = "tet:7:2:2,tet:6:2:3,square:6:1:2+3,cw:6:1:2+3+5,tet:4:3:2+3:e"
+THOROUGH_PLAN = "tet:8:1:2,tet:7:2:2+3+5,tri:7:4:2+3,square:9:1:2,square:8:1:3,strip:7:1:2+3,cw:7:2:2+3+5,tet:5:4:2+3:e,cw:5:3:3:e"
 
 # ---------------------------------------------------------------------------------------------------------------------
 # generator of checks/pm_configs.hpp (deterministic greedy covering design)
